@@ -219,10 +219,61 @@ def pool_worker(task):
 
 
 # ----------------------------------------------------------------------------------------------
+def replay(ck, path):
+    """Re-run one recorded input through the real function and the Lean Spec; exit 1 if it still fails."""
+    import json
+    import numpy as np
+    from ethosu.vela import scaling
+
+    np.seterr(all="ignore")
+    rec = json.load(open(path if os.path.isabs(path) else os.path.join(common.VERIF, path)))
+    rp = rec.get("replay", {})
+    verdicts = []
+    if "arg_hex" in rp and "function" in rp:
+        x = float.fromhex(rp["arg_hex"])
+        arg = {"float": float, "np.float64": np.float64, "np.float32": np.float32}[rp["arg_type"]](x)
+        red = rp["function"].endswith("reduced_quantise_scale")
+        got = (scaling.reduced_quantise_scale if red else scaling.quantise_scale)(arg)
+        v = ck.model([("rqspec " if red else "qspec ") + enc(x) + f" {got[0]} {got[1]}"], parallel=False)[0]
+        print(f"{rp['function']}({rp['arg_type']}(float.fromhex('{rp['arg_hex']}'))) = {got}; Lean Spec verdict {v}")
+        verdicts.append(v)
+    elif "call" in rp and "request" in rp:
+        got = eval(rp["call"], {"scaling": scaling, "np": np, "float": float})
+        tok = rp["request"].split()
+        ints = " ".join(str(int(g)) for g in got if not isinstance(g, (float, np.floating)))
+        if tok[0] == "mulscale":
+            req = "mulspec " + " ".join(tok[1:]) + " " + ints
+        elif tok[0] == "addscale":
+            req = "addspec " + " ".join(tok[1:]) + " " + ints
+        else:
+            req = "advspec " + " ".join(tok[1:]) + " " + ints
+        v = ck.model([req], parallel=False)[0]
+        print(f"{rp['call']} = {got}; Lean Spec verdict {v} (recorded {rp.get('spec_verdict')})")
+        verdicts.append(v)
+    elif "n" in rp and ("scale" in rp or "register_scale" in rp):
+        n = int(rp["n"])
+        S, sh = scaling.quantise_pooling_scale(n)
+        acc = rp.get("spec_answer", "bad 0").split()[1]
+        o = ck.model([f"poolpts {n} {S} {sh} {acc}"], parallel=False)[0]
+        print(f"scaling.quantise_pooling_scale({n}) = ({S}, {sh}); accumulator {acc}: {o}; recorded pair "
+              f"({rp.get('scale', rp.get('register_scale'))}, {rp.get('shift', rp.get('register_shift'))}): {rp.get('spec_answer')}")
+        if "register_scale" in rp:
+            o = ck.model([f"poolpts {n} {rp['register_scale']} {rp['register_shift']} {acc}"], parallel=False)[0]
+            print("recorded register pair re-judged:", o, "|", rp.get("replay"))
+        verdicts.append("1" if o.startswith("ok") else "0")
+    else:
+        print(json.dumps(rec, indent=1)[:3000])
+    bad = [v for v in verdicts if v != "1"]
+    print("replay:", "still fails" if bad else "no failure reproduced")
+    sys.exit(1 if bad else 0)
+
+
 def main():
     ck = Check("C09", "proof")
     ck.lean_stage(["VelaVerif.Props.C09"])
     common.setup_repo_path()
+    if ck.replay_arg:
+        replay(ck, ck.replay_arg)
     import numpy as np
     from ethosu.vela import scaling
 
@@ -254,7 +305,7 @@ def main():
         return ms
 
     # A1: all double exponents (frexp exponent of the normalised significand: -1126 .. 971)
-    k_rand = 96 if thorough else 28
+    k_rand = 96 if thorough else 40
     for e in range(-1126, 972):
         ms = edge_mantissas(k_rand)
         if e < -1074:   # subnormal: low bits must be zero
@@ -286,8 +337,8 @@ def main():
             tasks.append({"fn": "rq", "e": -31, "fe": -60, "gen": "range", "start": st, "count": 1 << 18, "types": ("s",)})
     else:
         for e in (-31, rng.randrange(-56, 8)):
-            for st in ((1 << 23), (1 << 24) - (1 << 16), (1 << 23) + rng.randrange(0, (1 << 23) - (1 << 17))):
-                tasks.append({"fn": "q", "e": e, "fe": e - 29, "gen": "range", "start": st, "count": 1 << 16, "types": ("s",)})
+            for st in ((1 << 23), (1 << 24) - (1 << 17), (1 << 23) + rng.randrange(0, (1 << 23) - (1 << 18))):
+                tasks.append({"fn": "q", "e": e, "fe": e - 29, "gen": "range", "start": st, "count": 1 << 17, "types": ("s",)})
         tasks.append({"fn": "rq", "e": -31, "fe": -60, "gen": "range", "start": (1 << 24) - (1 << 16), "count": 1 << 16, "types": ("s",)})
     # A4: dense double sweeps around the Q31 rounding point and at the top of the significand range
     win = 1 << (16 if thorough else 13)
@@ -344,7 +395,7 @@ def main():
     for (fn, e, m, t) in bad[:4]:
         rp = replay_scale(fn, e, m, t)
         if rp["spec_verdict"] not in ("1", "n/a"):
-            ck.violation(f"{rp['function']}({rp['arg_type']}.fromhex({rp['arg_hex']})) = {rp['implementation']}: Lean Spec verdict {rp['spec_verdict']} "
+            ck.violation(f"{rp['function']}({rp['arg_type']}(float.fromhex('{rp['arg_hex']}'))) = {rp['implementation']}: Lean Spec verdict {rp['spec_verdict']} "
                          f"(model says {rp['model']})", rp, found_input=True)
         else:
             ck.violation(f"correspondence Model/Scaling.lean vs {rp['function']} broken: implementation {rp['implementation']}, model {rp['model']} "
@@ -511,7 +562,7 @@ def main():
             return ("d", "d", "d")
         return tuple(rng.choice(KINDS) for _ in range(3))
 
-    n_el = 60000 if thorough else 12000
+    n_el = 60000 if thorough else 18000
     el_cases = []       # (fn, kinds, values, extra, realistic)
     for i in range(n_el):
         fn = ("mul", "add", "adv")[i % 3]
@@ -725,7 +776,7 @@ def main():
     ck.sample({"stage": "D1", "request": reqs[0], "implementation": reals[0], "model": outs[0], "case": d1_cases[0][:4]})
 
     # D2: elementwise ADD / SUB / MUL
-    n_d2 = 30000 if thorough else 6000
+    n_d2 = 30000 if thorough else 9000
     ew_ops = {"add": api.NpuElementWiseOp.ADD, "sub": api.NpuElementWiseOp.SUB, "mul": api.NpuElementWiseOp.MUL}
     acts = {"none": None, "tanh": api.NpuActivationOp.TANH, "sigmoid": api.NpuActivationOp.SIGMOID, "relu": api.NpuActivationOp.NONE_OR_RELU}
     one_over_0x3000 = 1 / 0x3000
@@ -831,7 +882,7 @@ def main():
                 "pooling pair) judged by Lean; distinct_nontrivial counts distinct scale values inside the hardware range "
                 "(non-degenerate result), distinct window sizes, and distinct realistic (kind, value) triples of the elementwise helpers",
         "exhaustive": {"double_exponents": "all -1126..971 (frexp form), incl. subnormals", "float32_exponents": "all -149..104",
-                       "float32_mantissas": "all 2^23 for 4 exponents" if thorough else "3 windows of 2^16 for 2 exponents",
+                       "float32_mantissas": "all 2^23 for 4 exponents" if thorough else "3 windows of 2^17 for 2 exponents",
                        "pool_windows": "all 1..65536", "pool_accumulators": f"all 8-bit reachable for n<={full8}, all 16-bit reachable for n<={full16}"},
         "unreached_branches": unreached,
         "trusted_base_extra": [
